@@ -298,8 +298,10 @@ func loopBranches(body *ast.BlockStmt) (brk, cont map[*ast.BranchStmt]bool, ok b
 				return false
 			case *ast.BranchStmt:
 				switch {
-				case x.Tok == token.GOTO || x.Label != nil:
+				case x.Tok == token.GOTO:
 					ok = false
+				case x.Label != nil:
+					// a label outside the body (labels inside were rejected above): the branch leaves the loop as before
 				case x.Tok == token.BREAK && !inSwitch:
 					brk[x] = true
 				case x.Tok == token.CONTINUE && !inLoop:
@@ -505,7 +507,13 @@ func (u *unroller) rewrite(l *[]ast.Stmt, j int, rs *ast.RangeStmt, loopVar *typ
 					}
 					// declared with the field's own type (its zero value), then assigned:
 					// `x := val` alone would infer val's type, not the field's
-					if _, isFn := val.(*ast.FuncLit); isFn && !g.cond {
+					sameType := false
+					if tv, ok := info.Types[val]; ok && val != nil && tv.Type != nil && tv.Value == nil {
+						if b, isBasic := tv.Type.(*types.Basic); !isBasic || b.Info()&types.IsUntyped == 0 {
+							sameType = types.Identical(tv.Type, st.Field(fi).Type())
+						}
+					}
+					if _, isFn := val.(*ast.FuncLit); (isFn || sameType) && !g.cond {
 						// a function literal keeps the `f := func…` form the closure pass recognises
 						out = append(out, define(names[fi], val)...)
 						return
